@@ -123,6 +123,16 @@ def ensure_facts(cfg, repo="/repo", verbose=False):
             for d in os.listdir(fp):
                 if d.startswith(("gecs-", "gecs_macros-", "specimen-")):
                     shutil.rmtree(os.path.join(fp, d), ignore_errors=True)
+        # ... and their old artifacts (scratch trees would otherwise pile up here)
+        deps = os.path.join(tgt, "debug", "deps")
+        if os.path.isdir(deps):
+            for d in os.listdir(deps):
+                if d.startswith(("gecs-", "gecs_macros-", "specimen-", "libgecs-", "libgecs_macros-", "libspecimen-")):
+                    try:
+                        os.remove(os.path.join(deps, d))
+                    except OSError:
+                        pass
+        shutil.rmtree(os.path.join(tgt, "debug", "incremental"), ignore_errors=True)
         spec = specimen_dir(repo)
         lock_src = os.path.join(repo, "Cargo.lock")
         if os.path.exists(lock_src):
@@ -134,6 +144,7 @@ def ensure_facts(cfg, repo="/repo", verbose=False):
             "RUSTC_WRAPPER": DRIVER,
             "CARGO_TARGET_DIR": tgt,
             "CARGO_NET_OFFLINE": "true",
+            "CARGO_INCREMENTAL": "0",
             "VERIF_FACTS_DIR": out,
             "VERIF_FACTS_CRATES": "gecs,gecs_macros,specimen",
             "VERIF_MONO_CRATES": "specimen",
